@@ -409,8 +409,13 @@ func execute(c *mc.Ctx, tier string, store sk.Kind, history []string, fullOracle
 					faultsInstalled = true
 				}
 				done := false
-				for k := 1; k <= 400 && !done; k++ {
-					n.Arm(k)
+				// first a failed attempt whose every statement succeeds and whose COMMIT fails (k = 0)
+				for k := 0; k <= 400 && !done; k++ {
+					if k == 0 {
+						n.ArmCommit(true)
+					} else {
+						n.Arm(k)
+					}
 					ferr := n.Reorg(e.At)
 					n.Arm(-1)
 					if ferr == nil {
